@@ -228,6 +228,8 @@ def run_cfg(cfg, max_frames=None, script_u=None, keep_sim=False):
             tr.run_ends.append({'frames': len(tr.frames), 'now': tk(Q.current_time), 'final': snapshot(Q),
                                 'util': [_util(n) for n in Q.transitive_nodes]})
         tr.records = collect_records(Q)
+        if hasattr(Q, 'times_to_deadlock'):
+            tr.ttd = [(repr(k), tk(v)) for k, v in Q.times_to_deadlock.items()]
     except StopRun:
         tr.stopped = True
         tr.records = collect_records(Q)
